@@ -1,9 +1,212 @@
 """Which components decide which property (DESIGN §7, Appendix D)."""
 from __future__ import annotations
+import json, os
+
+from .report import VERIF
 
 LEVEL = {}
+
+EFF_FAMILIES = {
+    "C01": ["PROV", "FRAME-view", "POP-own"],
+    "C02": ["PROV", "FRAME-view", "CALLS"],
+    "C04": ["FRAME-book"],
+    "C05": ["CALLS", "PROV"],
+    "C07": ["READS-rng"],
+    "C08": ["INIT", "FRAME-book"],
+    "C09": ["FRAME-cfg"],
+    "C10": ["POP-own"],
+    "C11": ["POOL-pure"],
+    "C12": ["READS-dir", "READS-rng"],
+    "C15": ["FRAME-view", "FRAME-book", "POP-own"],
+    "C17": ["ELITE"],
+    "C18": ["CTOR", "INIT"],
+}
+BND_MONITORS = {
+    "C01": "C01", "C02": "C02", "C03": "C03", "C04": "C04", "C05": "C05", "C06": "exc", "C07": "C07", "C08": "C08",
+    "C09": "C09", "C10": "C10", "C11": "pooled", "C12": "C12", "C15": "C15", "C17": "C17", "C18": "C18",
+}
+NO_VC = {"C09"}
+
+TRUSTED_EFF = ["EFF rule table (pyvc/eff.py): syntactic over-approximation of stores / calls / constructors with "
+               "intra-procedural alias tracking; dynamic features (setattr, __dict__, exec, eval) are forbidden sites"]
+
+
+def _eff_component(R, pid):
+    from .eff import Analyzer
+    fams = EFF_FAMILIES.get(pid, [])
+    if not fams:
+        return
+    an = getattr(R, "_eff", None)
+    if an is None:
+        an = Analyzer()
+        an.run()
+        if "ELITE" in fams or True:
+            from .elite import classify
+            an.elite = classify(an.src)
+        R._eff = an
+    counters = {}
+    for s in an.sites:
+        if s.family not in fams:
+            continue
+        if s.family == "READS-dir":
+            continue        # handled below (exclusion list of C12)
+        n = counters[(s.cls, s.family, s.func)] = counters.get((s.cls, s.family, s.func), 0) + 1
+        name = s.name(n)
+        R.obligation(name, "frame", "discharged" if s.ok else "refuted", "EFF", "effect-system", 0.0,
+                     f"{s.what}  -- {s.rule}", f"{s.file}:{s.line}")
+        if not s.ok:
+            R.violation(f"B.{s.cls}.{s.family}.{s.func}|{s.what[:60]}", f"{s.rule} [{s.file}:{s.line}: {s.what}]",
+                        {"replay_kind": "none", "site": {"file": s.file, "line": s.line, "what": s.what, "rule": s.rule,
+                                                         "family": s.family, "class": s.cls}}, no_input=True)
+    if "READS-dir" in fams:
+        expected = set(json.load(open(os.path.join(VERIF, "expectations.json")))["C12_excluded"])
+        readers = {c for c, v in an.c12_readers.items() if v}
+        for c in sorted(readers):
+            if c in expected:
+                R.notes.append(f"C12: {c} reads fitness / the task direction in its update rule: excluded by the statement")
+                continue
+            what = an.c12_readers[c][0]
+            direction = any(("minmax" in w or "TaskType" in w or "task_type" in w) for w in an.c12_readers[c])
+            R.obligation(f"B.{c}.READS-dir", "reads", "refuted" if direction else "discharged", "EFF", "effect-system", 0.0,
+                         what, "")
+            if direction:
+                R.violation(f"B.{c}.READS-dir", f"{c} consults the task direction in its update rule ({what}): max f / min -f duality at risk",
+                            {"replay_kind": "none", "reads": an.c12_readers[c][:5]}, no_input=True)
+            else:
+                R.notes.append(f"C12: {c} now reads Agent.fitness ({what}): excluded from C12 by the statement (was not on the committed list)")
+        for cls in sorted({s.cls for s in an.sites if s.family == "READS-dir"} | {c.name for c in an.optimizers}):
+            if cls not in readers and cls != "kernel":
+                R.obligation(f"B.{cls}.READS-dir", "reads", "discharged", "EFF", "effect-system", 0.0,
+                             "no read of Agent.fitness, Task.minmax or TaskType in the class", "")
+    if "ELITE" in fams:
+        exp = json.load(open(os.path.join(VERIF, "expectations.json")))["elitist"]
+        for c in exp:
+            verdict = an.elite.get(c)
+            ok = verdict is not None and verdict[0]
+            R.obligation(f"B.{c}.ELITE", "elite", "discharged" if ok else "refuted", "EFF", "effect-system", 0.0,
+                         (verdict[1] if verdict else "class missing"), "")
+            if not ok:
+                R.violation(f"B.{c}.ELITE", f"{c} is no longer structurally elitist: {verdict[1] if verdict else 'class missing'}",
+                            {"replay_kind": "none"}, no_input=True)
+    R.trust(*TRUSTED_EFF)
+    R.assume("hand-stated meta-theorem: a class whose every store / constructor / call site satisfies the frame rules refines the "
+             "abstract hook contract that optimize() is verified against")
+
+
+def _bnd_component(R, pid, tier, seed):
+    from . import bnd
+    mon = BND_MONITORS.get(pid)
+    if mon is None:
+        return
+    out = bnd.campaign(tier, seed)
+    recs = out["records"]
+    exp = json.load(open(os.path.join(VERIF, "expectations.json")))
+    ran = 0
+    distinct = set()
+    samples = []
+    viol = {}
+    for r in recs:
+        c = r["case"]
+        if r.get("harness_error"):
+            R.machinery.append(f"BND harness error on {c.get('opt')}: {r['harness_error']}")
+            continue
+        if r.get("skip"):
+            continue
+        sc = c.get("scenario")
+        relevant = {
+            "C07": sc == "repro", "C08": sc == "reuse", "C18": sc == "setcfg", "C12": sc == "duality",
+            "C11": c.get("mode") in ("thread", "process"),
+        }.get(pid, sc == "single")
+        if not relevant:
+            continue
+        if pid == "C12" and c["opt"] in exp["C12_excluded"]:
+            continue
+        if pid == "C17" and c["opt"] not in exp["elitist"]:
+            continue
+        ran += 1
+        ckey = (c["opt"], c["kind"], c["direction"], c.get("mode"), sc, c.get("scale"), c.get("stopping"), c.get("seed"))
+        if not r.get("exc"):
+            distinct.add(ckey)
+            if len(samples) < 3:
+                samples.append({"case": c, "summary": r.get("summary"), "cycles": r.get("cycles"), "evaluations_of_objective": r.get("evals")})
+        msgs = {}
+        if pid == "C06":
+            if r.get("exc"):
+                e = r["exc"]
+                cont = c["kind"] in bnd.CONT
+                if cont:
+                    msgs[f"BND.C06.{c['opt']}.{e['type']}.{e['where']}"] = f"{e['type']} in {e['where']}: {e['msg']}"
+        elif pid == "C11":
+            for k in ("C01", "C02", "C03", "C05", "C10"):
+                if k in r.get("monitors", {}):
+                    msgs[f"BND.C11.{c['opt']}.{c.get('mode')}.{k}"] = r["monitors"][k]
+            if r.get("exc"):
+                e = r["exc"]
+                msgs[f"BND.C11.{c['opt']}.{c.get('mode')}.{e['type']}.{e['where']}"] = f"{e['type']} in {e['where']}: {e['msg']}"
+            if c.get("mode") == "process" and r.get("initial_duplicates", 0) > 0:
+                msgs[f"BND.C11.{c['opt']}.process.duplicates"] = (f"{r['initial_duplicates']} exact duplicates in a process-mode initial "
+                                                                   f"population (workers replay one another's random stream)")
+        elif pid == "C17":
+            if r.get("non_monotone_at"):
+                msgs[f"BND.C17.{c['opt']}"] = f"best cost got worse at generation(s) {r['non_monotone_at']}"
+        else:
+            if mon in r.get("monitors", {}):
+                msgs[f"BND.{pid}.{c['opt']}"] = r["monitors"][mon]
+            if r.get("exc") and pid in ("C07", "C08", "C18", "C12"):
+                e = r["exc"]
+                if not _known_exc(exp, c["opt"], e):
+                    msgs[f"BND.{pid}.{c['opt']}.{e['type']}"] = f"{e['type']} in {e['where']}: {e['msg']}"
+        for k, m in msgs.items():
+            viol.setdefault(k, (m, r))
+    # C06 on integer-coded tasks: a pair (optimizer, encoding) that works today must not start failing wholesale
+    if pid == "C06":
+        pairs = {}
+        for r in recs:
+            c = r["case"]
+            if c.get("scenario") == "single" and c["kind"] in bnd.INTCODED and not r.get("skip"):
+                pairs.setdefault((c["opt"], c["kind"]), []).append(r)
+        failing_today = {tuple(x) for x in exp["C06_intcoded_failing_pairs"]}
+        for (opt, kind), rs in sorted(pairs.items()):
+            if all(x.get("exc") for x in rs) and (opt, kind) not in failing_today:
+                e = rs[0]["exc"]
+                viol.setdefault(f"BND.C06.{opt}.{kind}.wholesale", (f"every run of {opt} on the {kind} task now fails: {e['type']} in {e['where']}: {e['msg']}", rs[0]))
+    for k, (m, r) in sorted(viol.items()):
+        case = dict(r["case"])
+        R.violation(k, m, {"replay_kind": "bnd", "case": _full_case(r, tier, seed), "observed": m})
+    R.bounded[f"BND:{pid}"] = {
+        "evaluations": ran, "distinct_nontrivial": len(distinct),
+        "rule": "cases = (optimizer x task kind x direction x cycles x population scale x seed x mode / scenario) enumerated by "
+                "pyvc.bnd.build_cases from the configurations of tests/algorithms; a case is counted when it ran to completion",
+        "bound": "cycles <= 6, population <= 3x documented, dimension <= 6, seeds listed in the case records",
+        "samples": samples, "campaign_wall_s": out.get("wall"),
+    }
+    R.assume("BND part: bounded, not proved - run-time form of the same contracts on the enumerated family only")
+
+
+def _known_exc(exp, opt, e):
+    return any(opt == k[0] and e["type"] == k[1] for k in exp.get("C06_known_exceptions", []))
+
+
+def _full_case(r, tier, seed):
+    from . import bnd
+    c = r["case"]
+    for full in bnd.build_cases(tier, seed):
+        if all(full.get(k) == v for k, v in c.items()):
+            return full
+    return c
 
 
 def compose(R, pid, tier, seed, bnd):
     from .props import _vc_component
-    _vc_component(R, pid, tier)
+    from .contract import REG
+    import contracts  # noqa: F401
+    has_vc = any(pid in c.properties and c.verify for c in REG.contracts.values())
+    if has_vc:
+        _vc_component(R, pid, tier)
+    _eff_component(R, pid)
+    if bnd:
+        _bnd_component(R, pid, tier, seed)
+    # lemma scripts (Lean) and canaries are run by the thorough tier
+    if tier == "thorough":
+        from .extras import thorough_extras
+        thorough_extras(R, pid)
